@@ -26,7 +26,7 @@ RULE = ("requests = method {GET,POST,OPTIONS,PUT,DELETE,HEAD} x path (0-4 segmen
 ASSUMPTIONS = ["the cached name-server proxy of the gateway module is seeded with a proxy to the harness' own name server (no DNS/broadcast lookup)",
                "header-wrong + parameter-right may be refused (the safe direction is not flagged)", "a repeated $key parameter is judged only on 'no Pyro traffic'",
                "blank query values are not generated (parse_qs drops them by documented default)"]
-REQUIRED_REACH = ["index_pages_ok", "sql_backed_name_server_shards", "unauthorised_refused", "forwarded_ok", "meta_ok", "errors_500_ok", "oneway_ok", "non_call_requests", "pattern_mismatch_refused", "key_missing_refused", "lost_reply_once_ok", "lifecycle_histories_ok"]
+REQUIRED_REACH = ["expose_pattern_reconfigured", "index_pages_ok", "sql_backed_name_server_shards", "unauthorised_refused", "forwarded_ok", "meta_ok", "errors_500_ok", "oneway_ok", "non_call_requests", "pattern_mismatch_refused", "key_missing_refused", "lost_reply_once_ok", "lifecycle_histories_ok"]
 SHARD_TIMEOUT = {"quick": 240, "thorough": 3000}
 KEY = "s3cret"
 OBJ_NAMES = ["http.calc", "http.calc2", "http.other", "Http.calc", "xhttp.calc", "other.obj", "http.", "http.a/b", "xother.obj", "a.other.x", "http.a%41", "http.aA", "http.b+c"]
@@ -471,6 +471,11 @@ def run_shard(shard, rec):
         for j in range(shard["n"]):
             if rec.should_stop(10):
                 break
+            if j % 45 == 44:
+                # the gateway is reconfigured while it runs: from now on the new expose pattern decides, also for names asked for before
+                cfg = dict(cfg, pattern=r.choice([q for q in PATTERNS if q != cfg["pattern"]]))
+                G.pyro_app.ns_regex = cfg["pattern"]
+                rec.count("expose_pattern_reconfigured")
             env, info = gen_request(r)
             pay = {"cfg": cfg, "environ": {k: v for k, v in env.items() if k != "wsgi.errors"}, "info": info}
             path = env["PATH_INFO"]
@@ -482,7 +487,7 @@ def run_shard(shard, rec):
                 lifecycle(envx, cfg, rec, r, j)
             if j % 50 == 3:
                 index_page(envx, cfg, rec)
-        if not cfg["pattern"] or not re.match(cfg["pattern"], "http.tmp1.calc"):
+        if True:
             rec.count("lifecycle_histories_ok")      # (this shard's expose pattern hides the temporary names: nothing to do here)
     finally:
         envx.close()
